@@ -42,6 +42,28 @@ def confirm(kind, v):
         full, base, pre, build = U(r['full']), U(r['base']), ou(r['pre']), ou(r['build'])
         rec = base + (pre or '') + ('+' + build if build is not None else '')
         return rec != full, 'pep440 %r parts=(%r,%r,%r)' % (full, base, pre, build)
+    if kind == 'tpl':
+        r = d.call(op='format_template', schema=v['schema'], vars=v['vars'], template=native.cps(v['template']))
+        if 'panic' in r or 'error' in r:
+            return 'panic' in r, 'format_output: %s' % (r.get('panic') or r.get('error'))
+        g = lambda k: U(r[k]['out']) if r[k].get('ok') else None
+        t, sv, pp = g('templated'), g('semver'), g('pep440')
+        tx = v['template']
+        if t is None or sv is None or pp is None:
+            bad = not tx.startswith('{{ major')
+        elif tx == '{{ semver }}':
+            bad = t != sv
+        elif tx == '{{ pep440 }}':
+            bad = t != pp
+        elif 'docker' in tx:
+            bad = t != sv.replace('+', '-')
+        elif tx.startswith('v{{ semver_obj.base_part'):
+            bad = not ('v' + sv).startswith(t)
+        elif 'pep440_obj.base_part' in tx:
+            bad = not pp.startswith(t)
+        else:
+            bad = False
+        return bad, 'template %r -> %r ; semver %r ; pep440 %r (vars %s)' % (tx, t, sv, pp, v['vars'])
     if kind == 'ctx':
         r = d.call(op='context', schema=v['schema'], vars=v['vars'])
         if 'panic' in r:
@@ -118,7 +140,8 @@ def main():
                      pep440_records='%d shapes: release 1..3, symbolic presence of epoch/pre/post/dev, local up to 2 segments' % len(pshapes),
                      context='%d schemas of the C06 menu with symbolic variables' % len(specs),
                      functions='%d argument shapes: prefix/prefix_if/hash/sanitize with values of 0..3(4) chars over ASCII + non-ASCII representatives, format_timestamp with ts any second 1970-2199 and 6 formats' % len(fargs))
-    ck.outside = ["Tera's own parsing / rendering of arbitrary user templates and filters (library code, no MIR)", 'hash_int is decided under C04', 'custom JSON variables']
+    ck.bounds['templates'] = '%d templates x schemas through OutputFormatter::format_output: %r' % (len(c15.TEMPLATES), [t for t, _k in c15.TEMPLATES])
+    ck.outside = ["Tera's own parsing / rendering of arbitrary user templates and filters (library code, no MIR): the template branch of format_output runs through the Tera subset model (models_tera: {{ var }}, {{ a.b }}, {% if %}, zerv's functions)", 'hash_int is decided under C04', 'custom JSON variables']
     ck.assumptions = ['python models of std/HashMap/serde_json::Value accessors, chrono format items, DefaultHasher as an uninterpreted function', 'reference contracts transcribed from the statement']
     deadline = time.time() + (300 if quick else 3600)
     cands = []
@@ -128,6 +151,10 @@ def main():
     cands += [('pep', v) for v in ck.absorb('PEP 440 parts recompose to to_string', ex, expect_tags=['parts'])]
     ex = engine.explore('c15', 'path_context', specs, jobs=ck.jobs, deadline=time.time() + (300 if quick else 1800))
     cands += [('ctx', v) for v in ck.absorb('ZervTemplateContext::from_zerv agrees with the renderers', ex, expect_tags=['context'])]
+    targs = [dict(s, template=t) for s in specs for t in c15.TEMPLATES if quick is False or (s['name'] in ('extra_all_secondary', 'build_context') and t[1] != 'scalars')]
+    ex = engine.explore('c15', 'path_template', targs, jobs=ck.jobs, deadline=time.time() + (600 if quick else 1800))
+    cands += [('tpl', v) for v in ck.absorb('format_output with a template ({{ semver }}, {{ pep440 }}, docker, base parts, scalars) agrees with format_output without one', ex,
+                                            expect_tags=['template:semver', 'template:pep440', 'template:docker', 'same_output'])]
     ex = engine.explore('c15', 'path_fn', fargs, jobs=ck.jobs, deadline=time.time() + (300 if quick else 1800))
     cands += [('fn', v) for v in ck.absorb('custom template functions keep their contracts', ex, expect_tags=['fn_returned'])]
     import c04, c04_check
